@@ -889,7 +889,7 @@ func nameBefore(p *PFromBody, lim int) bool {
 }
 
 // fbNest: the invariant behind the nesting facts, by automaton state (s: start of the component being scanned)
-func fbNest(p *PFromBody, i int, s int) bool {
+func fbNest(buf []byte, p *PFromBody, i int, s int) bool {
 	st := p.state
 	possible := st == fbNewPossibleParam || st == fbPossibleParamName || st == fbPossibleParamNameEnd ||
 		st == fbNewPossibleVal || st == fbPossibleVal || st == fbPossibleValEnd || st == fbQuotedPossibleVal
@@ -905,6 +905,8 @@ func fbNest(p *PFromBody, i int, s int) bool {
 		(st != fbURIFound || (pfZero(p.Params) && pfZero(p.Tag) && fend(p.URI)+1 == fend(p.V) && fend(p.V) <= i &&
 			p.V.Offs < p.URI.Offs && nameBefore(p, int(p.URI.Offs)))) &&
 		(!param || (p.V.Offs < p.URI.Offs && fend(p.URI)+1 == fend(p.V) && fend(p.V) <= i && nameBefore(p, int(p.URI.Offs)))) &&
+		((st != fbURIFound && !param) || bracketed(buf, p)) &&
+		(st != fbURI || (buf[s-1] == '<' && (pfZero(p.Name) || fend(p.Name)+1 == s))) &&
 		(!possible || (p.URI.Offs == p.V.Offs && pfZero(p.Name) && fend(p.URI) <= fend(p.V) && fend(p.V) <= i && fend(p.URI) < i)) &&
 		((!param && !possible) || ((p.Params.Offs == 0 || (fend(p.URI) < int(p.Params.Offs) && int(p.Params.Offs) <= i && p.Params.Len == 0)) &&
 			(p.Tag.Offs == 0 || (p.Params.Offs != 0 && p.Params.Offs <= p.Tag.Offs && fend(p.Tag) <= i)))) &&
@@ -913,10 +915,15 @@ func fbNest(p *PFromBody, i int, s int) bool {
 		(st != fbStar || (p.V.Len == 1 && fbZero3(p) && pfZero(p.Name) && fend(p.V) <= i))
 }
 
+// bracketed: the URI is exactly the text between '<' and '>', and a display name ends right at the '<'
+func bracketed(buf []byte, p *PFromBody) bool {
+	return buf[int(p.URI.Offs)-1] == '<' && buf[fend(p.URI)] == '>' && (pfZero(p.Name) || fend(p.Name)+1 == int(p.URI.Offs))
+}
+
 // fbNested: what a finished value guarantees: display name, URI and parameters lie inside the value, in
 // that order; the tag lies inside the parameters
-func fbNested(p *PFromBody) bool {
-	return p.V.Offs <= p.URI.Offs && fend(p.URI) <= fend(p.V) && nameBefore(p, int(p.URI.Offs)) &&
+func fbNested(buf []byte, p *PFromBody) bool {
+	return (p.URI.Offs == p.V.Offs || bracketed(buf, p)) && p.V.Offs <= p.URI.Offs && fend(p.URI) <= fend(p.V) && nameBefore(p, int(p.URI.Offs)) &&
 		(p.Params.Offs == 0 || (fend(p.URI) < int(p.Params.Offs) && fend(p.Params) == fend(p.V))) &&
 		(p.Tag.Offs == 0 || (p.Params.Offs != 0 && p.Params.Offs <= p.Tag.Offs && fend(p.Tag) <= fend(p.Params)))
 }
